@@ -659,6 +659,26 @@ def _resolution(R):
         if err or np.shape(obs) != np.shape(want) or not np.all(np.abs(np.asarray(obs, dtype=float) - want) <= 1e-9 * np.abs(want)):
             R.fail("resolution:current-values", want, err or obs, "fl.Function('f', %r, engine=e, variables={'k': ..}, load=True) loaded once; then (a, o, k, x) set in turn to %s, "
                    "membership(x) after each" % (text, hist))
+    # a disabled variable still HAS a current value: formulas resolve it like any other
+    for which in ("a", "o"):
+        R.cases += 1
+        e.input_variable("a").enabled, e.output_variable("o").enabled = which != "a", which != "o"
+        e.input_variable("a").value, e.output_variable("o").value, term.variables["k"] = 1.0, 2.0, 3.0
+        obs, err = _try(term.membership, 4.0)
+        if err or abs(float(obs) - 4321.0) > 1e-9:
+            R.fail("resolution:disabled-variable", 4321.0, err or obs, "fl.Function('f', %r, engine=e, variables={'k': 3.0}, load=True).membership(4.0) with a=1, o=2 and variable %r disabled" % (text, which))
+    e.input_variable("a").enabled = e.output_variable("o").enabled = True
+    # the term's own variables are ITS OWN map: the dictionary passed to the constructor (and a sibling term built from the same dictionary) stays independent
+    R.cases += 1
+    shared = {"k": 1.0}
+    f1, f2 = fl.Function("f1", "k + x", variables=shared, load=True), fl.Function("f2", "k * x", variables=shared, load=True)
+    shared["k"] = 90.0
+    f2.variables["k"] = 5.0
+    o1, e1 = _try(f1.membership, 9.0)
+    o2, e2_ = _try(f2.membership, 9.0)
+    if e1 or e2_ or abs(float(o1) - 10.0) > 1e-9 or abs(float(o2) - 45.0) > 1e-9:
+        R.fail("resolution:own-variables-are-a-copy", [10.0, 45.0], [e1 or o1, e2_ or o2],
+               "d = {'k': 1.0}; f1 = fl.Function('f1', 'k + x', variables=d, load=True); f2 = fl.Function('f2', 'k * x', variables=d, load=True); d['k'] = 90.0; f2.variables['k'] = 5.0; [f1.membership(9.0), f2.membership(9.0)]")
     env = {"fl": fl, "e": e, "e2": fl.Engine("e", input_variables=[fl.InputVariable("x")], output_variables=[fl.OutputVariable("o")])}
     for name, want, code in [("clash-own-vs-engine", "ValueError", "fl.Function('f', 'a + k', engine=e, variables={'a': 1.0, 'k': 2.0}, load=True).membership(1.0)"),
                              ("clash-own-x", "ValueError", "fl.Function('f', 'x + 1', variables={'x': 1.0}, load=True).membership(1.0)"),
